@@ -230,7 +230,7 @@ def pipelined(ctx, res):
     import random
     import shellprops
     import shellrun
-    n = 400 if ctx.tier == 'quick' else 8000
+    n = 2000 if ctx.tier == 'quick' else 8000
     digs = shellprops.run_many('C09', ctx.rng.getrandbits(40), n)
     for d in digs:
         res.evaluations += 1
